@@ -22,6 +22,19 @@ Proof. reflexivity. Qed.
 Lemma gen_destroy_dep_char : gen_destroy_dep = [ROtherCol].
 Proof. reflexivity. Qed.
 
+Lemma gen_m2m_select_char : gen_m2m_select = (ROtherCol, RJoinCol).
+Proof. reflexivity. Qed.
+Lemma gen_m2m_add_char : gen_m2m_add = [(RJoinCol, AInst); (ROtherCol, AOther)].
+Proof. reflexivity. Qed.
+Lemma gen_m2m_remove_char : gen_m2m_remove = [(RJoinCol, AInst); (ROtherCol, AOther)].
+Proof. reflexivity. Qed.
+
+(* the ManyToMany wrapper's add/remove issue the statements of the RelatedJoin's *)
+Lemma m2m_add_char j x y s : m2m_add j x y s = related_add j x y s.
+Proof. unfold m2m_add, related_add. rewrite gen_m2m_add_char, gen_related_add_char. reflexivity. Qed.
+Lemma m2m_remove_char j x y s : m2m_remove j x y s = related_remove j x y s.
+Proof. unfold m2m_remove, related_remove. rewrite gen_m2m_remove_char, gen_related_remove_char. reflexivity. Qed.
+
 (* the link row that says "inst (owner of join j) is linked to other" *)
 Definition mkpair (j : rjoin) (inst other : Z) : Z * Z :=
   match j_side j with First => (inst, other) | Second => (other, inst) end.
